@@ -364,6 +364,7 @@ class Fock(BaseState):
                     return False
                 else:
                     self.dimensions = new_dimensions
+                    return True
             elif self.expansion_level is ExpansionLevel.Vector:
                 assert isinstance(self.state, jnp.ndarray)
                 if self.dimensions < new_dimensions:
@@ -377,7 +378,7 @@ class Fock(BaseState):
                     self.dimensions = new_dimensions
                     return True
                 num_quanta = num_quanta_vector(self.state)
-                if self.dimensions > new_dimensions and num_quanta < new_dimensions + 1:
+                if self.dimensions > new_dimensions and num_quanta < new_dimensions:
                     self.state = self.state[:new_dimensions]
                     self.dimensions = new_dimensions
                     return True
@@ -396,7 +397,7 @@ class Fock(BaseState):
                     self.dimensions = new_dimensions
                     return True
                 num_quanta = num_quanta_matrix(self.state)
-                if new_dimensions < self.dimensions:
+                if new_dimensions < self.dimensions and num_quanta < new_dimensions:
                     self.state = self.state[:new_dimensions, :new_dimensions]
                     self.dimensions = new_dimensions
                     return True
